@@ -82,7 +82,7 @@ Step == /\ steps < MaxSteps
            \/ \E a \in Regs, id \in AllIds, v \in AttrVals, at \in AllIds, t \in TypesU : RelateNode(a, NodeVal(id, v), at, t)
            \/ \E a, b \in Regs, at \in AllIds, t \in TypesU : RelateList(a, b, at, t)
            \/ \E a, o \in Regs, s \in IdsU : Graph(a, s, o) \/ Siblings(a, s, o)
-           \/ \E a, o \in Regs, s \in IdsU, k \in 1..3 : Descendants(a, s, k, o)
+           \/ \E a, o \in Regs, s \in IdsU, k \in 0..3 : Descendants(a, s, k, o)   \* depth 0: below one level, selects nothing
            \/ (Mode = "build" /\ Build)
 Next == Step \/ (Mode = "build" /\ Finish)
 Spec == Init /\ [][Next]_vars
